@@ -30,6 +30,12 @@ CLAIMED = {
  "C06": dict(cat="proof", tech="Coq model of maybe_static_array/extents storage (prefix-count map, every constructor loop, converting ctor, comparison) with theorems; differential correspondence over types x construction paths x pairs",
    text="Theorems C06_scan_is_prefix_count (the index_sequence_scan recursion as written = number of dynamic positions before r), C06_from_dynamic, C06_from_all, C06_extent, C06_convert, C06_observers, C06_eq_iff (across index types/patterns, comparison in the common type), C06_neq_is_negation - all ranks and patterns by list induction. Correspondence: all masks for small ranks x seeded static values x pack/array/span x 9 argument element types, ordered pairs for conversion and comparison.",
    ref="4/C06"),
+ "C08": dict(cat="proof", tech="Coq theorems on every converting constructor and operator==/!= as implemented; differential correspondence over ordered type pairs",
+   text="Theorems C08_conv_correct (whenever a valid target mapping with the source's extents and strides exists - the precondition of each conversion family - the constructor computes exactly it), C08_conv_preserves_offsets, C08_eq_sound(+_offsets), C08_eq_refl_copy, C08_roundtrip_eq, C08_neq_is_negation (synthesised and each hand-written form), C08_not_eq_impl_demorgan (all ranks), C08_lr_eq_iff_extents. Correspondence: seeded (source value, target type) pairs per conversion family and equality pairs per layout family, in C++17 (hand-written !=) and C++20/23 builds; offsets of source and target compared on the implementation's own output.",
+   ref="4/C08"),
+ "C20": dict(cat="proof", tech="Coq theorem on the debug stride-check loop as written (abort iff some stride non-canonical; no UB before the abort); process-exit-status correspondence in assertion-enabled and NDEBUG builds",
+   text="Theorems C20_abort_iff(+_prop), C20_silent_on_canonical, C20_ndebug_unchecked, C20_rank0_unchecked about the model of the loop (running stride in index_type, comparison in the common type, product advanced only after a successful comparison). Correspondence: conversions run as child processes without NDEBUG (SIGABRT expected iff a stride differs and rank>0) and with NDEBUG (never).",
+   ref="4/C20"),
 }
 PENDING_REASON = "check under construction in this session (Coq theorems and correspondence driver not yet committed); not claimed until both exist"
 
